@@ -1,6 +1,7 @@
 //! `circ-conf`: conformance harness for kaist-cp/circ (see /verif/DESIGN.md).
 mod alloc;
 mod ebrworld;
+mod qlworld;
 mod rcdirected;
 mod rcrun;
 mod rcworld;
@@ -168,6 +169,38 @@ fn main() {
                 fam,
                 threads,
                 ran,
+                ctl.out.len(),
+                ctl.site_hits.iter().map(|(k, v)| format!("\"{}\":{}", k, v)).collect::<Vec<_>>().join(","),
+                ctl.op_hits.iter().map(|(k, v)| format!("\"{}\":{}", k, v)).collect::<Vec<_>>().join(",")
+            );
+            ctl.quit();
+        }
+        "queue" | "list" => {
+            let is_list = mode == "list";
+            sched::install(qlworld::ev_hook);
+            circ::verif::set_class_mask(if is_list { circ::verif::site::CLASS_LIST } else { circ::verif::site::CLASS_QUEUE });
+            let seed: u64 = arg(&args, "--seed", 1);
+            let n: usize = arg(&args, "--n", 100);
+            let threads: usize = arg(&args, "--threads", 3);
+            let ops: usize = arg(&args, "--ops", 4);
+            let out = sarg(&args, "--out", "ql.ndjson");
+            let mut ctl = qlworld::Ctl::new(threads, is_list);
+            for i in 0..n {
+                let mut rng = sched::Rng::new(seed.wrapping_mul(1_000_003).wrapping_add(i as u64));
+                let label = format!("rand:{}:{}:{}:{}:{}", mode, seed, i, threads, ops);
+                if is_list {
+                    qlworld::run_list_random(&mut ctl, &mut rng, &label, ops);
+                } else {
+                    qlworld::run_queue_random(&mut ctl, &mut rng, &label, ops);
+                }
+            }
+            write_out(&out, &ctl.out);
+            println!(
+                "{{\"runs\":[{{\"file\":{:?},\"vocab\":{:?},\"threads\":{},\"scenarios\":{},\"aborted\":0,\"lines\":{},\"sites\":{{{}}},\"ops\":{{{}}}}}]}}",
+                out,
+                mode,
+                threads,
+                n,
                 ctl.out.len(),
                 ctl.site_hits.iter().map(|(k, v)| format!("\"{}\":{}", k, v)).collect::<Vec<_>>().join(","),
                 ctl.op_hits.iter().map(|(k, v)| format!("\"{}\":{}", k, v)).collect::<Vec<_>>().join(",")
